@@ -123,7 +123,7 @@ def build(claimed):
         'setup_cmd': '%s /verif/run_check.py --setup' % PY,
         'hooks': {
             'guard': 'PGRADD_VERIF',
-            'enable': 'no source hooks were needed: every seam is reached by shadowing module globals (open/os of Library, Scheme, DataDir), by replacing Parser.ParseState with a recording subclass, and by sys.monitoring; checks export PGRADD_VERIF=1 for their children but pgradd does not read it',
+            'enable': 'no source hooks were needed: every seam is reached by shadowing module globals (open/os of Library, Scheme, DataDir) plus, while a simulated disk is installed, the process-wide open / io.open / os.stat / os.listdir / os.getcwd for paths in the simulated name space, by replacing Parser.ParseState with a recording subclass, and by sys.monitoring; checks export PGRADD_VERIF=1 for their children but pgradd does not read it',
             'baseline_off_cmd': 'cd /repo && /venv/bin/python -m pytest -ra -q -p no:cacheprovider --timeout=900 --continue-on-collection-errors',
             'source_commits': [],
             'add_only': True,
